@@ -95,7 +95,7 @@ def run(pid, tier):
                     jobs.append({"id": "K%d" % len(jobs), "doc": 0, "kw": [k, role], "viol": 0, "vsite": 0, "style": sty, "ov": []})
         jf = sc.path("layout_jobs.ndjson")
         write_ndjson(jf, jobs)
-        lay = run_tlc("DslLayoutMC", chk_dsl.LAYOUT_CFG, sc, data_files={"layout_jobs.ndjson": jf}, defs=chk_dsl.LAYOUT_DEFS, timeout=1200)
+        lay = run_tlc("DslLayoutMC", chk_dsl.LAYOUT_CFG, sc, data_files={"layout_jobs.ndjson": jf}, defs=chk_dsl.LAYOUT_DEFS, timeout=1200, cache=True)
         lrecs = {r["id"]: r for r in lay.records}
         if len(lrecs) != len(jobs):
             raise Infra("TLC rendered %d of %d keyword documents\n%s" % (len(lrecs), len(jobs), lay.tail[-1500:]))
